@@ -25,7 +25,11 @@ type scenario struct {
 	Bound   int
 }
 
-var hookCalls = []string{"send", "reopen", "rmpipenodes", "rmnode-unused", "rmpipe", "regnode", "regpipe", "setthr", "getthr", "isany"}
+var hookCalls = []string{"send", "reopen", "rmpipenodes", "rmnode-unused", "rmpipe", "regnode", "regpipe", "setthr", "getthr", "isany",
+	// early-return / error paths of every call: none may leave the lock held
+	"getthr-unknown", "getthrs", "getthrs-unknown", "isany-unknown", "send-unknown", "rmpipe-unknown", "rmpipe-empty", "rmpipenodes-unknown",
+	"rmpipenodes-unknownpid", "rmpipenodes-empty", "rmnode-unknown", "rmnode-inuse", "rmnode-empty", "regnode-denied", "regnode-empty", "regnode-badpolicy",
+	"regpipe-invalid", "regpipe-denied", "regpipe-unknown-node", "regpipe-empty", "setthr-negative", "setthrs", "setthrs-negative", "setthr-empty", "reopen-failing"}
 var gatedCalls = []string{"send-expiring", "send-flush", "rmpipenodes", "rmpipe+rmnode", "reopen"}
 
 func scenarios(tier string) []scenario {
@@ -185,6 +189,66 @@ func body(sc scenario) func() string {
 			ret = fmt.Sprint(n, ok)
 		case "isany":
 			ret = fmt.Sprint(b.IsAnyPipelineRegistered("t1"))
+		case "getthr-unknown":
+			n, ok := b.SuccessThreshold("nope")
+			ret = fmt.Sprint(n, ok)
+		case "getthrs":
+			n, ok := b.SuccessThresholdSinks("t1")
+			ret = fmt.Sprint(n, ok)
+		case "getthrs-unknown":
+			n, ok := b.SuccessThresholdSinks("nope")
+			ret = fmt.Sprint(n, ok)
+		case "isany-unknown":
+			ret = fmt.Sprint(b.IsAnyPipelineRegistered("nope"))
+		case "send-unknown":
+			_, err := b.Send(ctx, "nope", "x")
+			ret = fmt.Sprint(err != nil)
+		case "rmpipe-unknown":
+			ret = fmt.Sprint(b.RemovePipeline("nope", "p1") != nil)
+		case "rmpipe-empty":
+			ret = fmt.Sprint(b.RemovePipeline("", "") != nil)
+		case "rmpipenodes-unknown":
+			ok, err := b.RemovePipelineAndNodes(ctx, "nope", "p1")
+			ret = fmt.Sprint(ok, err != nil)
+		case "rmpipenodes-unknownpid":
+			ok, err := b.RemovePipelineAndNodes(ctx, "t2", "nope")
+			ret = fmt.Sprint(ok, err != nil)
+		case "rmpipenodes-empty":
+			ok, err := b.RemovePipelineAndNodes(ctx, "", "")
+			ret = fmt.Sprint(ok, err != nil)
+		case "rmnode-unknown":
+			ret = fmt.Sprint(b.RemoveNode(ctx, "nope") != nil)
+		case "rmnode-inuse":
+			ret = fmt.Sprint(b.RemoveNode(ctx, "m2") != nil)
+		case "rmnode-empty":
+			ret = fmt.Sprint(b.RemoveNode(ctx, "") != nil)
+		case "regnode-denied":
+			b.RegisterNode("dn", hn.NewNode(log, "dn", el.NodeTypeSink, hn.Drop, nil).AsNode(), el.WithNodeRegistrationPolicy(el.DenyOverwrite))
+			ret = fmt.Sprint(b.RegisterNode("dn", hn.NewNode(log, "dn2", el.NodeTypeSink, hn.Drop, nil).AsNode()) != nil)
+		case "regnode-empty":
+			ret = fmt.Sprint(b.RegisterNode("", hn.NewNode(log, "e", el.NodeTypeSink, hn.Drop, nil).AsNode()) != nil)
+		case "regnode-badpolicy":
+			ret = fmt.Sprint(b.RegisterNode("bp", hn.NewNode(log, "bp", el.NodeTypeSink, hn.Drop, nil).AsNode(), el.WithNodeRegistrationPolicy("bogus")) != nil)
+		case "regpipe-invalid":
+			ret = fmt.Sprint(b.RegisterPipeline(el.Pipeline{PipelineID: "px", EventType: "t2", NodeIDs: []el.NodeID{"s2", "m2"}}) != nil)
+		case "regpipe-denied":
+			b.RegisterPipeline(el.Pipeline{PipelineID: "pd", EventType: "t2", NodeIDs: []el.NodeID{"m2", "s2"}}, el.WithPipelineRegistrationPolicy(el.DenyOverwrite))
+			ret = fmt.Sprint(b.RegisterPipeline(el.Pipeline{PipelineID: "pd", EventType: "t2", NodeIDs: []el.NodeID{"m2", "s2"}}) != nil)
+		case "regpipe-unknown-node":
+			ret = fmt.Sprint(b.RegisterPipeline(el.Pipeline{PipelineID: "pu", EventType: "t2", NodeIDs: []el.NodeID{"m2", "nope"}}) != nil)
+		case "regpipe-empty":
+			ret = fmt.Sprint(b.RegisterPipeline(el.Pipeline{}) != nil)
+		case "setthr-negative":
+			ret = fmt.Sprint(b.SetSuccessThreshold("t1", -1) != nil)
+		case "setthrs":
+			ret = fmt.Sprint(b.SetSuccessThresholdSinks("t1", 1) != nil)
+		case "setthrs-negative":
+			ret = fmt.Sprint(b.SetSuccessThresholdSinks("t1", -1) != nil)
+		case "setthr-empty":
+			ret = fmt.Sprint(b.SetSuccessThreshold("", 1) != nil)
+		case "reopen-failing":
+			m2.ReopenErr = fmt.Errorf("reopen fails")
+			ret = fmt.Sprint(b.Reopen(ctx) != nil)
 		}
 		vrt.Join()
 		// the broker must still be usable: no call may leave it permanently locked
@@ -210,7 +274,7 @@ func main() {
 			ex := &vrt.Explorer{Bound: sc.Bound, Body: body(sc)}
 			return hk.ExploreJob(prop, job, deadline, ex, sc.Name)
 		},
-		Rule: "scenarios: every Broker call x a harness node that re-enters Send on the same Broker from Process / Close / Reopen, and the real gated.Filter (Broker = the same broker) with 0..3 pending groups, x {no other thread, a concurrent RegisterNode waiting for the write lock, a concurrent Send, a concurrent RemovePipelineAndNodes}; every schedule within the preemption bound on the real code with the modelled writer-preferring RWMutex; verdict: deadlock (with each blocked thread's lock and stack), plus the Broker must accept a write-locking call afterwards",
+		Rule: "scenarios: every Broker call, including every early-return / error path (unknown and empty event types, ids and policies, denied overwrites, invalid pipelines, negative thresholds, a failing Reopen), x a harness node that re-enters Send on the same Broker from Process / Close / Reopen, and the real gated.Filter (Broker = the same broker) with 0..3 pending groups, x {no other thread, a concurrent RegisterNode waiting for the write lock, a concurrent Send, a concurrent RemovePipelineAndNodes}; every schedule within the preemption bound on the real code with the modelled writer-preferring RWMutex; verdict: deadlock (with each blocked thread's lock and stack), plus the Broker must accept a write-locking call afterwards",
 		Assumptions: []string{
 			"RWMutex model follows sync.RWMutex: a Lock that has announced itself blocks later RLocks, so reader recursion with a waiting writer deadlocks in the model as in Go",
 			"'bounded time' is judged as: every thread finishes in every explored schedule (no deadlock, step horizon 40000)",
